@@ -42,7 +42,7 @@ var c10Buckets = []string{"aaa", "bbb"}
 
 func c10Keys(kind drv.Kind) []string {
 	ks := []string{".", "..", "../bbb/x", "../../etc/x", "a/../x", "a//x", "./x", ".hidden", "a\\b", "%2e%2e/x", "..%2fbbb%2fx",
-		strings.Repeat("s", 255), strings.Repeat("s", 256), "_meta", "bucket/aaa", ".modtime-resolution", "w_y", "w/y", "x/y", "w", "metadata/aaa/x", "buckets/bbb/x", "x", "X", "x ", "w/y/", "/x", "w/./y", "w/y/../y", "aaa/x", "bbb/x"}
+		strings.Repeat("s", 255), strings.Repeat("s", 256), "_meta", "bucket/aaa", ".modtime-resolution", "w_y", "w/y", "x/y", "w", "metadata/aaa/x", "buckets/bbb/x", "x", "X", "x ", "w/y/", "/x", "w/./y", "w/y/../y", "aaa/x", "bbb/x", "w/z/q", "../ccc/x"}
 	return ks
 }
 
